@@ -58,3 +58,19 @@ Example C14_example :
            [ORequest 5; OAdvance 6; OBuf; OBufLen; OAdvanceWithBuf 9; OPeek 2])
   = [VBytes [1;2;3;4;5]; VPanic PAdvance; VBytes [1;2;3;4;5]; VNum 5; VPanic PAdvance; VOptByte (Some 3)].
 Proof. vm_compute. reflexivity. Qed.
+
+(* buf_write_ptr's capacity test on machine words (WriterGuard.v, defect D17): Writer.v states it over unbounded N; the
+   repaired code's `len <= capacity - old_len` never wraps and decides the same for every caller-supplied len; the former
+   wrapping sum did not (witness = the D17 replay).  Tied to the code by the `wr` stream, which sends lengths near 2^64. *)
+From Flussab Require Import WriterGuard.
+
+Theorem C14_buf_write_ptr_guard_exact_for_every_length : forall old cap len : N,
+  (old <= cap -> guard_fixed old cap len = guard_ideal old cap len)%N.
+Proof. exact guard_fixed_exact. Qed.
+Print Assumptions C14_buf_write_ptr_guard_exact_for_every_length.
+
+Theorem C14_buf_write_ptr_wrapping_guard_refuted :
+  (exists old cap len, old <= cap /\ cap < W /\ len < W /\
+    guard_wrapping old cap len = true /\ guard_ideal old cap len = false)%N.
+Proof. exact guard_wrapping_refuted. Qed.
+Print Assumptions C14_buf_write_ptr_wrapping_guard_refuted.
